@@ -173,11 +173,13 @@ class Builder:
                 loc = sym.get("location", {}) or {}
                 if "/src/" not in loc.get("file", "") and "/include/" not in loc.get("file", ""):
                     continue
-                if sym.get("isType") or sym.get("isParameter") or sym.get("isStaticLifetime"):
+                if sym.get("isType") or sym.get("isStaticLifetime"):
                     continue
                 if sym.get("type", {}).get("id") not in ("array", "struct_tag", "struct", "union_tag", "union"):
                     continue
-                fn = loc.get("function", "")
+                if sym.get("isParameter") and sym.get("type", {}).get("id") == "array":
+                    continue       # array parameters are pointers; struct parameters are by-value copies
+                fn = loc.get("function", "") or name.split("::")[0]
                 base = sym.get("baseName", "")
                 if (fn, base) in self.C16_ALLOW:
                     continue
